@@ -16,6 +16,7 @@ mod c10;
 mod c11;
 mod c12;
 mod c13;
+mod c15;
 
 use util::*;
 
@@ -78,6 +79,7 @@ fn main() {
         "C11" => c11::run(&p, &mut rep),
         "C12" => c12::run(&p, &mut rep),
         "C13" => c13::run(&p, &mut rep),
+        "C15" => c15::run(&p, &mut rep),
         other => {
             eprintln!("no monitor for {}", other);
             std::process::exit(3);
